@@ -306,6 +306,13 @@ func runOnce(b *behT, respell bool, seed int) (runObs, string) {
 	div := ""
 	shut := false
 	auto := false
+	started := false
+	defer func() {
+		// a hub the behaviour started and never shut down keeps its listening socket: thousands of behaviours run in one process
+		if started && !shut {
+			h.Shutdown()
+		}
+	}()
 	for i, st := range b.Steps {
 		a := st.A
 		sp := "canon"
@@ -321,6 +328,7 @@ func runOnce(b *behT, respell bool, seed int) (runObs, string) {
 		switch a.A {
 		case "Start":
 			h.Start()
+			started = true
 		case "Shutdown":
 			h.Shutdown()
 			shut = true
@@ -471,6 +479,27 @@ func runOnce(b *behT, respell bool, seed int) (runObs, string) {
 	}
 	// delayed notifications: all of them sleep 500 ms
 	time.Sleep(750 * time.Millisecond)
+	// on a loaded machine a notification goroutine can be later than that: while the last delayed note of a service whose
+	// details were stored is not its current state (or there is none yet), up to three more seconds are given - a notification
+	// that is wrong or missing stays wrong or missing
+	for k := 0; k < 60; k++ {
+		behind := false
+		rec.mu.Lock()
+		last := map[string]string{}
+		for _, ln := range rec.late {
+			last[ln.Ski] = ln.State
+		}
+		rec.mu.Unlock()
+		for _, sd := range ro.Stored {
+			if ski, ok := skiOf[sd.Ski]; ok && last[sd.Ski] != csNames[h.PairingDetailForSki(ski).State()] {
+				behind = true
+			}
+		}
+		if !behind {
+			break
+		}
+		time.Sleep(50 * time.Millisecond)
+	}
 	rec.mu.Lock()
 	ro.Late = append([]lateNote{}, rec.late...)
 	rec.mu.Unlock()
